@@ -372,6 +372,7 @@ def run_history(spec, ops, step_ticks, cb_ticks, clock0=0, ctl=None):
         s = build(spec, _opts=opts)
         # the caller's dictionary after the constructions: same keys in the same order, same value objects
         opts_unchanged = opts is None or (list(opts.keys()) == [k for k, _ in snap] and all(opts[k] is v for k, v in snap))
+        fresh_len = len(s.itstat_object.history())  # a new optimiser has recorded nothing
         del earlier
         state = {"k": 0, "j": 0}
         orig_step = s.step
@@ -464,9 +465,14 @@ def run_history(spec, ops, step_ticks, cb_ticks, clock0=0, ctl=None):
                 raise ValueError(o)
         # transposed history (IterationStats.history(transpose=True))
         hist = s.itstat_object.history()
-        tr = s.itstat_object.history(transpose=True)
+        try:
+            tr = s.itstat_object.history(transpose=True)
+        except Exception as e:  # noqa: BLE001 - the code under test failing is an observation, not a harness error
+            tr = None
         tr_ok = None
-        if hist:
+        if tr is None:
+            tr_ok = "history(transpose=True) raised"
+        elif hist:
             tr_ok = all(
                 len(tr[nn]) == len(hist) and all(tr[nn][m] is hist[m][nn] or same_value(tr[nn][m], hist[m][nn]) for m in range(len(hist)))
                 for nn in range(len(hist[0]))
@@ -474,7 +480,7 @@ def run_history(spec, ops, step_ticks, cb_ticks, clock0=0, ctl=None):
         else:
             tr_ok = tr == []
     return {"obs": obs, "names": names, "transpose_ok": tr_ok, "clock_reads": clock.reads, "header": header,
-            "opts_unchanged": opts_unchanged}
+            "opts_unchanged": opts_unchanged, "fresh_len": fresh_len}
 
 
 def _num(v):
